@@ -904,6 +904,10 @@ def execute(prop, scen):
                 else:
                     objs = list(_copy.deepcopy(tuple(objs)))
                 run.count("probe:continued-on-deep-copy")
+            if ri > 0 and cond is None:
+                for j_ in range(nf):
+                    if objs[j_] is None:
+                        build_late(scen, objs, j_)  # a failed first round may have ended before everything was declared
             if rnd.get("set_bounds"):
                 import copy as _copy
 
